@@ -454,32 +454,104 @@ def _(c):
     c.ensures("all descendants unregistered, self is a leaf, everything else unchanged", post)
 
 
-@contract(NQ + "remove", props=("C01", "C02", "C04"))
+@contract(NQ + "remove", props=("C01", "C02", "C03", "C04", "C13"))
 def _(c):
-    c.param("self", "node").param("keep_children", "false").param("with_clones", "false")
+    c.param("self", "node").param("keep_children", "false", "true").param("with_clones", "false")
     c.families = ("plain", "typed")
     c.uses_lemmas = ("lemma.lemma_desc_rank",)
+    c.prune = True
     c.result_tag = "none"
-    c.modifies("_tree", "_parent", "_data", "_data_id", "_node_id", "_children", "_meta", "ddom", "dcard", "llen", "litem", "cpos", "pos")
+    c.modifies("_tree", "_parent", "_data", "_data_id", "_node_id", "_children", "_meta", "ddom", "dcard", "llen", "litem", "lalloc", "cpos", "pos", "rank")
     c.requires("wf, self is a member", lambda x: And(wf0(x), self_member(x)))
+    keep = lambda x: z3.is_true(x.a.keep_children)  # noqa: E731
+
+    def clash(x):
+        """un-nesting would put a child of self next to a sibling of self that carries the same data_id"""
+        if not keep(x):
+            return z3.BoolVal(False)
+        h0, s = x.h0, x.a.self
+        op = h0._parent(s)
+        i, t = L.fresh("i", L.I), L.fresh("t", L.I)
+        return z3.Exists([i, t], And(0 <= i, i < h0.clen(s), 0 <= t, t < h0.clen(op), h0.child(op, t) != s, h0._data_id(h0.child(s, i)) == h0._data_id(h0.child(op, t))))
+
+    c.raises("UniqueConstraintError", when=clash, ensures=lambda x: And(obs_unchanged_but_fresh(x), wf1(x)), props=("C03", "C13"))
 
     def post(x):
         h0, h, s, T = x.h0, x.h, x.a.self, x.T
         op, me = h0._parent(s), h0.pos(s)
-        gone = removed_set(h0, T, s, with_self=True)
         i = L.fresh("i", L.I)
+        o = L.fresh("o", L.Ref)
         n_op = h0.clen(op)
-        return And(
-            wf1(x),
-            members_minus(x, T, gone),
-            h.clen(op) == n_op - 1,
-            ForAll([i], Implies(And(0 <= i, i < n_op - 1), h.child(op, i) == If(i < me, h0.child(op, i), h0.child(op, i + 1))), patterns=[h.litem(h._children(op), i)]),
-            survivors_frame(x, T, gone, extra_lists=(op,)),
+        if not keep(x):
+            gone = removed_set(h0, T, s, with_self=True)
+            return And(
+                wf1(x), members_minus(x, T, gone),
+                h.clen(op) == n_op - 1,
+                ForAll([i], Implies(And(0 <= i, i < n_op - 1), h.child(op, i) == If(i < me, h0.child(op, i), h0.child(op, i + 1))), patterns=[h.litem(h._children(op), i)]),
+                survivors_frame(x, T, gone, extra_lists=(op,)),
+                h._tree(s) == NONE, h._parent(s) == NONE,
+            )
+        # keep_children: the children are spliced in at the removed node's position, in order
+        m = h0.clen(s)
+        gone = lambda y: y == s  # noqa: E731
+        cs = [
+            wf1(x), members_minus(x, T, gone),
+            h.clen(op) == n_op - 1 + m,
+            ForAll([i], Implies(And(0 <= i, i < n_op - 1 + m), h.child(op, i) == If(i < me, h0.child(op, i), If(i < me + m, h0.child(s, i - me), h0.child(op, i - m + 1)))), patterns=[h.litem(h._children(op), i)]),
+            ForAll([o], Implies(o != s, h._parent(o) == If(And(h0.mem(T, o), h0._parent(o) == s), op, h0._parent(o))), patterns=[h._parent(o)]),
             h._tree(s) == NONE, h._parent(s) == NONE,
-        )
+            fields_same_except(x, tuple(f for f in NODE_FIELDS if f not in ("_children", "_parent")) + TREE_FIELDS, [s]),
+            ForAll([o], Implies(And(o != s, o != op), h._children(o) == h0._children(o)), patterns=[h._children(o)]),
+            other_childlists_same(x, T, op, s),
+        ]
+        return And(*cs)
 
-    c.ensures("self and its branch are gone; the old parent's list lost exactly self; everything else unchanged", post)
-    c.ghost_exit["pos"] = lambda x, o: If(And(o != x.a.self, x.h0._parent(o) == x.h0._parent(x.a.self), x.h0.pos(o) > x.h0.pos(x.a.self)), x.h0.pos(o) - 1, x.h0.pos(o))
+    c.ensures("self (and, unless keep_children, its branch) is gone; the old parent's list lost exactly self / got self's children in its place; everything else unchanged", post)
+
+    def pos_exit(x, o):
+        h0, s = x.h0, x.a.self
+        me, m = h0.pos(s), h0.clen(s)
+        if keep(x):
+            return If(And(h0._parent(o) == s, h0.mem(x.T, o)), me + h0.pos(o), If(And(o != s, h0._parent(o) == h0._parent(s), h0.pos(o) > me), h0.pos(o) + m - 1, h0.pos(o)))
+        return If(And(o != s, h0._parent(o) == h0._parent(s), h0.pos(o) > me), h0.pos(o) - 1, h0.pos(o))
+
+    c.ghost_exit["pos"] = pos_exit
+    c.ghost_exit["rank"] = lambda x, o: (If(And(L.is_desc(x.h0, o, x.a.self), x.h0.mem(x.T, o)), x.h0.rank(o) - 1, x.h0.rank(o)) if keep(x) else x.h.rank(o))
+    # ghost assert before `_index_of(pc, self)`: self sits at its position of the parent's list (shifted by the splice)
+    def hint_index_of(x):
+        h0, s = x.h0, x.a.self
+        lst = x.call_args.node_list
+        me, m = h0.pos(s), (h0.clen(s) if keep(x) else 0)
+        n_op = h0.clen(h0._parent(s))
+        at = lambda k: And(0 <= k, k < x.h.llen(lst), x.h.litem(lst, k) == s)  # noqa: E731
+        return If(x.h.llen(lst) == n_op, at(me), at(me + m))  # before / after the splice
+
+    c.call_hints["_index_of"] = hint_index_of
+
+    # ---- loops (ordinals in source order): 1 validation over [self] | clones, 2 children of n, 3 clones, 4 re-parenting
+    def no_clash_for(x, n, upto=None):
+        h0 = x.h0
+        i, t = L.fresh("i", L.I), L.fresh("t", L.I)
+        hi = h0.clen(n) if upto is None else upto
+        sib = h0.litem(h0._children(h0._parent(n)), t)
+        return ForAll([i, t], Implies(And(0 <= i, i < hi, 0 <= t, t < h0.clen(h0._parent(n)), sib != n), h0._data_id(h0.child(n, i)) != h0._data_id(sib)), patterns=[z3.MultiPattern(h0.litem(h0._children(n), i), sib)])
+
+    c.loop(1).invariant = lambda x: And(x.h.llen(x.it.z) == 1, x.h.litem(x.it.z, 0) == x.a.self, Implies(x.k >= 1, no_clash_for(x, x.a.self)))
+    c.loop(1).modifies = ()
+    c.loop(1).exit_facts = [lambda x: no_clash_for(x, x.a.self)]
+    c.loop(2).invariant = lambda x: And(x.v.n == x.a.self, no_clash_for(x, x.a.self, upto=x.k))
+    c.loop(2).modifies = ()
+    c.loop(3).invariant = lambda x: z3.BoolVal(True)
+
+    def inv_reparent(x):
+        h0, h, s, T = x.h0, x.h, x.a.self, x.T
+        op = h0._parent(s)
+        o = L.fresh("o", L.Ref)
+        return And(ForAll([o], h._parent(o) == If(And(h0.mem(T, o), h0._parent(o) == s, h0.pos(o) < x.k), op, h0._parent(o)), patterns=[h._parent(o)]),
+                   Implies(h0._children(s) != LNONE, x.it.z == h0._children(s)))
+
+    c.loop(4).invariant = inv_reparent
+    c.loop(4).modifies = ("_parent",)
 
 
 # ------------------------------------------------------------------ shortcuts (C04): instances of add_child's contract
